@@ -107,6 +107,26 @@ func caseVariants(s string) []string {
 	return out
 }
 
+func spelling(v, s string) string {
+	if v == s {
+		return "the exact spelling of a stored name"
+	}
+	return "a case variant of " + q(s)
+}
+
+func errText(err error) string {
+	if err == nil {
+		return "no error"
+	}
+	// keep messages stable across runs: drop the scratch directory
+	t := err.Error()
+	if i := strings.Index(t, "/l1/l2/l3/l4/"); i >= 0 {
+		j := strings.LastIndex(t[:i], " ")
+		t = t[:j+1] + "<scratch>" + t[i+len("/l1/l2/l3/l4"):]
+	}
+	return "error: " + t
+}
+
 // storeVariants: all case variants for a single-manifest store; for a larger
 // store the exact spelling and the spelling with every letter toggled.
 func storeVariants(store []string) func(string) []string {
@@ -139,6 +159,41 @@ func regularFiles(dir string) []string {
 	})
 	sort.Strings(l)
 	return l
+}
+
+func relTo(root, p string) string {
+	if p == "" {
+		return ""
+	}
+	rel, err := filepath.Rel(root, p)
+	if err != nil {
+		return p
+	}
+	return rel
+}
+
+// matchFiles: got (relative to root) must be one confined manifest file per
+// wanted path, equal to it up to letter case; created[i] is then set to the
+// file that really exists.
+func matchFiles(root string, got, want, created []string) bool {
+	if len(got) != len(want) {
+		return false
+	}
+	used := make([]bool, len(got))
+	for i, w := range want {
+		found := false
+		for j, g := range got {
+			if !used[j] && strings.EqualFold(g, w) && confine(root, filepath.Join(root, g), "manifests", 5) == "" {
+				used[j], found = true, true
+				created[i] = filepath.Join(root, g)
+				break
+			}
+		}
+		if !found {
+			return false
+		}
+	}
+	return true
 }
 
 func sameSet(a, b []string) bool {
@@ -220,14 +275,15 @@ func (f *fsEnv) legacyCase(store []string, rounds int, verbose bool) (res fsResu
 	}
 	var wantRel []string
 	for _, c := range created {
-		rel, _ := filepath.Rel(root, c)
-		wantRel = append(wantRel, rel)
+		wantRel = append(wantRel, relTo(root, c))
 	}
 	got := regularFiles(root)
 	if verbose {
 		fmt.Printf("legacy store %q -> files on disk %q\n", store, got)
 	}
-	if x := f.outerIntact(); x != "" || !sameSet(got, wantRel) {
+	// the files that now exist must be exactly one per name, inside the store at
+	// manifests/<host>/<namespace>/<model>/<tag> (spelling compared up to letter case)
+	if x := f.outerIntact(); x != "" || !matchFiles(root, got, wantRel, created) {
 		res.failf("C13/escape/WriteManifest/file-not-at-fixed-depth", "after WriteManifest for %q the models directory holds %q (stray entry next to it: %q); expected exactly %q", store, got, x, wantRel)
 		return
 	}
@@ -254,12 +310,12 @@ func (f *fsEnv) legacyCase(store []string, rounds int, verbose bool) (res fsResu
 					fmt.Printf("  %-24s getExistingName -> %q  ParseNamedManifest -> %q err=%v\n", q(v), modelParts(e), file, err)
 				}
 				if err != nil || file != created[i] {
-					res.failf("C13/case/getExistingName/"+class, "store holds manifests %q; the name %s (a case variant of %s) is canonicalised by getExistingName to %q, whose manifest is %q (err=%v); expected it to address %q", store, q(v), q(s), e.String(), file, err, created[i])
+					res.failf("C13/case/getExistingName/"+class, "store holds manifests %q; the name %s (%s) is canonicalised by getExistingName to %q and ParseNamedManifest then opens %q (%s); expected it to address %q", store, q(v), spelling(v, s), e.String(), relTo(root, file), errText(err), relTo(root, created[i]))
 					break
 				}
 				lp, err := server.ParseModelPath(e.String()).GetManifestPath()
 				if err != nil || lp != created[i] {
-					res.failf("C13/case/ParseModelPath/"+class, "store holds manifests %q; %s -> getExistingName -> %q -> ParseModelPath.GetManifestPath = %q (err=%v); expected %q", store, q(v), e.String(), lp, err, created[i])
+					res.failf("C13/case/ParseModelPath/"+class, "store holds manifests %q; %s (%s) -> getExistingName -> %q -> ParseModelPath.GetManifestPath = %q (%s); expected %q", store, q(v), spelling(v, s), e.String(), relTo(root, lp), errText(err), relTo(root, created[i]))
 					break
 				}
 			}
@@ -303,8 +359,7 @@ func (f *fsEnv) cacheCase(store []string, verbose bool) (res fsResult) {
 	}
 	var wantRel []string
 	for _, c := range created {
-		rel, _ := filepath.Rel(f.cdir, c)
-		wantRel = append(wantRel, rel)
+		wantRel = append(wantRel, relTo(f.cdir, c))
 	}
 	got := regularFiles(mdir)
 	for i := range got {
@@ -313,7 +368,7 @@ func (f *fsEnv) cacheCase(store []string, verbose bool) (res fsResult) {
 	if verbose {
 		fmt.Printf("cache store %q -> files on disk %q\n", store, got)
 	}
-	if x := f.outerIntact(); x != "" || !sameSet(got, wantRel) {
+	if x := f.outerIntact(); x != "" || !matchFiles(f.cdir, got, wantRel, created) {
 		res.failf("C13/escape/DiskCache.Link/file-not-at-fixed-depth", "after Link for %q the cache holds manifests %q (stray entry next to the store: %q); expected exactly %q", store, got, x, wantRel)
 		return
 	}
@@ -335,7 +390,7 @@ func (f *fsEnv) cacheCase(store []string, verbose bool) (res fsResult) {
 				fmt.Printf("  %-24s -> %q manifestPath -> %q err=%v\n", q(v), xv.String(), p, err)
 			}
 			if err != nil || p != created[i] {
-				res.failf("C13/case/DiskCache.manifestPath/"+class, "cache holds manifests %q; the name %s (a case variant of %s, completed to %q) resolves to %q (err=%v); expected %q", store, q(v), q(s), xv.String(), p, err, created[i])
+				res.failf("C13/case/DiskCache.manifestPath/"+class, "cache holds manifests %q; the name %s (%s, completed to %q) resolves to %q (%s); expected %q", store, q(v), spelling(v, s), xv.String(), relTo(f.cdir, p), errText(err), relTo(f.cdir, created[i]))
 				continue
 			}
 			d, err := f.cache.Resolve(xv.String())
@@ -349,7 +404,7 @@ func (f *fsEnv) cacheCase(store []string, verbose bool) (res fsResult) {
 		ok, err := f.reg.Unlink(xl.String())
 		_, statErr := os.Stat(created[i])
 		if err != nil || !ok || statErr == nil {
-			res.failf("C13/case/Registry.Unlink/"+class, "cache holds manifests %q; Unlink(%s) = %v, %v and the manifest %q still exists=%v", store, q(last), ok, err, created[i], statErr == nil)
+			res.failf("C13/case/Registry.Unlink/"+class, "cache holds manifests %q; Unlink(%q) (from %s, %s) = %v, %s and the manifest %q still exists=%v", store, xl.String(), q(last), spelling(last, s), ok, errText(err), relTo(f.cdir, created[i]), statErr == nil)
 		}
 	}
 	return
